@@ -56,11 +56,10 @@ def add_time_variable(ifileo, key):
     if ifileo.TSTEP == 0:
         tmpseconds = 0
     else:
-        tmp = ('%06d' % ifileo.TSTEP)
-        htmp = tmp[:2]
-        mtmp = tmp[2:4]
-        stmp = tmp[4:]
-        tmpseconds = 3600 * int(htmp) + 60 * int(mtmp) + int(stmp)
+        # HHMMSS; the hours may have more than two digits
+        tmp = int(ifileo.TSTEP)
+        tmpseconds = (3600 * (tmp // 10000) + 60 * (tmp // 100 % 100) +
+                      tmp % 100)
 
     time_unit = "seconds since %s" % (rdate.strftime('%Y-%m-%d %H:%M:%S%z'),)
     if 'TFLAG' in ifileo.variables:
